@@ -62,10 +62,11 @@ class NumberField(Field):
                 "value is not a valid %s" % self.type_cls.__name__
             ) from err
 
-        if self.min is not None and num < self.min:
+        # "not >=" rather than "<": a NaN compares false to everything and must not pass a bound
+        if self.min is not None and not num >= self.min:
             raise ValueError("value must be >= %s" % self.min)
 
-        if self.max is not None and num > self.max:
+        if self.max is not None and not num <= self.max:
             raise ValueError("value must be <= %s" % self.max)
 
         return num
